@@ -159,11 +159,24 @@ def build_join(case, patches):
         else:
             conns.append((sides[0], sides[1], tuple(o) if isinstance(o, list) else o))
     plist = [patches[i] for i in case["plist"]] if "plist" in case else list(patches)
-    return Domain.join(plist, conns, case["name"])
+    # joining must not alter its inputs (the same connectivity list may be used for another set of patches):
+    # element-wise identity / equality of the two lists before and after the call
+    snap_c = list(conns)          # the entries are immutable tuples: identity of every entry is the test
+    snap_p = list(plist)
+    D = Domain.join(plist, conns, case["name"])
+    same_c = len(conns) == len(snap_c) and all(x is y for x, y in zip(conns, snap_c))
+    same_p = len(plist) == len(snap_p) and all(a is b for a, b in zip(plist, snap_p))
+    if not (same_c and same_p):
+        raise InputsAltered("connectivity" if not same_c else "patches")
+    return D
 
 
 class Timeout(Exception):
     pass
+
+
+class InputsAltered(Exception):
+    """Domain.join changed the list of patches / connectivity entries it was given"""
 
 
 def _alarm(signum, frame):
